@@ -21,7 +21,7 @@ ASSUMPTIONS = ['phases already wrapped into [0,2pi)', 'phase_step fixed to its d
 REQUIRED_CLASSES = ['good-segment', 'bad-segment:not-increasing', 'bad-segment:start', 'bad-segment:end', 'bad-segment:mask',
                     'container-built']
 EXPECTED_LABELS = ['never-raises', 'good-labels-match-criteria', 'good-is-renumbered-subset-of-all', 'container-flag-matches-criteria']
-BUDGET_S = {'quick': 150, 'thorough': 1200}
+BUDGET_S = {'quick': 150, 'thorough': 900}
 
 TWO_PI = 2 * math.pi
 STEP = 1.5 * math.pi
